@@ -28,7 +28,10 @@ work = tempfile.mkdtemp(prefix="verif-show-")
 c.meta["events"] = nev
 drv = lib.build_driver(work)
 if "-rebase" in sys.argv:
-    c = pg.rebase(c, pg.alloc_blocks(1)[0])
+    import re
+    old = re.match(rb"127\.\d+\.\d+\.", ls[0][0]).group(0)
+    nb = pg.alloc_blocks(1)[0]
+    c = lib.Case(c.comp, c.id, [t.replace(old, nb) for t in c.toks], c.meta)
 impl = lib.run_impl(drv, [c], work); model = lib.run_model([c], work)
 ie, it = pg.parse_proxy_obs(impl[c.id], nev); me, mt = pg.parse_proxy_obs(model[c.id], nev)
 ni, nm = pg.normalise(ie), pg.normalise(me)
